@@ -306,7 +306,7 @@ PROPS["C04"] = {
             "groups, preferred username) or refusal is compared with the model; non-trivial = all",
     "assumptions": OIDC_ASSUME,
     "trusted_base": ["token construction labels in the driver; JWTs signed with the Go standard library"],
-    "level_text": "c04_verified (verification => signature, issuer, expiry and audience membership), c04_callback / c04_refresh / c04_bearer (a "
+    "level_text": "c04_extra_issuer_audience / c04_extra_issuer_needs_audience (an extra-jwt-issuers entry configures exactly the audience after its first '=', for every audience string); c04_verified (verification => signature, issuer, expiry and audience membership), c04_callback / c04_refresh / c04_bearer (a "
                   "session on each entry path only from a verified token; a refresh response without ID token keeps the old identity), "
                   "c04_claims (fields = coerced configured claims; e-mail not marked unverified), c04_token_first / "
                   "c04_profile_only_if_missing are proved on the Gallina model of verifier.go / provider_data.go / claim_extractor.go / "
